@@ -299,6 +299,37 @@ pub async fn build_scn(name: &'static str, seed: u64) -> Scn {
             let b2 = produce(&prod, &mut f, &b1, b1.timestamp + DT, 6, &[t2, stake_tx(&s6[1], 6, stake, 132)], true).await;
             Scn { name, gp, stake, f, deliver: vec![g.clone(), b1.clone(), b2.clone()], chain: vec![g, b1, b2], other_branch: vec![] }
         }
+        // G ← B1 ← B2 (kept)   B1 ← F1 ← F2 (offered and REJECTED: F1 is fine, F2 spends three outputs that were never
+        // created, one per key). The node tries the fork (unwinds B2, winds F1), fails on F2 and winds B2 back; the made-up
+        // outputs are what `other_branch` lists: nothing on the node's chain ever created them
+        "rejfork" => {
+            let t1 = mk_tx(&f, &s1[0..1], 1, 2, 101);
+            let t3 = mk_tx(&f, &s3[0..1], 3, 1, 103);
+            let b1 = produce(&prod, &mut f, &g, g.timestamp + DT, 6, &[t1, t3], true).await;
+            prod.add(b1.clone()).await.unwrap();
+            let t2 = mk_tx(&f, &s2[2..3], 2, 3, 102);
+            let b2 = produce(&prod, &mut f, &b1, b1.timestamp + DT, 6, &[t2], true).await;
+            prod.add(b2.clone()).await.unwrap();
+            let tf1 = mk_tx(&f, &s2[1..2], 2, 1, 141);
+            let f1 = produce(&prod, &mut f, &b1, b1.timestamp + DT + 40, 7, &[tf1], true).await;
+            prod.add(f1.clone()).await.unwrap();
+            let mut forged = vec![];
+            let mut ftx = vec![];
+            for k in 1..=3u64 {
+                let mut sl = Slip::default();
+                sl.public_key = key(k).0;
+                sl.amount = 7000 + k;
+                sl.block_id = 2;
+                sl.tx_ordinal = 40 + k;
+                sl.slip_index = 0;
+                sl.slip_type = SlipType::Normal;
+                sl.utxoset_key = sl.get_utxoset_key();
+                ftx.push(mk_tx(&f, &[sl.clone()], k, ATTACKER, 150 + k as u8));
+                forged.push(sl);
+            }
+            let f2 = produce(&prod, &mut f, &f1, f1.timestamp + DT, 7, &ftx, true).await;
+            Scn { name, gp, stake, f, deliver: vec![g.clone(), b1.clone(), b2.clone(), f1, f2], chain: vec![g, b1, b2], other_branch: forged }
+        }
         // G ← A1 (abandoned)   G ← B1 ← B2 (adopted after a reorganisation)
         "reorg" => {
             let a1t: Vec<Transaction> =
@@ -1463,7 +1494,7 @@ async fn run_corpus(out: &mut Out, seed: u64, tally: &mut Tally) {
     }
 }
 
-pub const SCENARIOS: [&str; 4] = ["fresh", "reorg", "window", "staking"];
+pub const SCENARIOS: [&str; 5] = ["fresh", "reorg", "rejfork", "window", "staking"];
 
 async fn run_async(seed: u64, tier: &str, outdir: &str) {
     let mut out = Out::new(outdir);
